@@ -18,7 +18,7 @@ From Onet Require Export Base.Corr Net.C09Router.
 Definition code_fixed_F10 := false.
 (* the variant of router.go (connection refused by registerConnection / launchHandleRoutine is
    closed or abandoned) the real-transport cases compare with; flipped when the fix lands *)
-Definition code_fixed_F11 := false.
+Definition code_fixed_F11 := true.
 
 (* ---- operations of the harness ------------------------------------------- *)
 
@@ -282,7 +282,7 @@ Fixpoint model_run (x : xstate) (ops : list op) : list snap :=
   end.
 
 Definition x0 (is_tcp is_auto : bool) (np nhand : nat) : xstate :=
-  mkX (init is_tcp nhand) None None None is_auto np.
+  mkX (init code_fixed_F11 is_tcp nhand) None None None is_auto np.
 
 (* coarse projection for the real transports *)
 Record csnap := mkCSnap {
